@@ -42,6 +42,22 @@ def _idiom_call(ctx: Ctx, f: FuncInfo) -> ast.Call:
     return calls[0]
 
 
+def idiom_site(ctx: Ctx, fr: Frame, depth: int = 0):
+    """(getattr idiom call, frame to evaluate it in) for the dispatcher running in frame fr: the idiom is in the
+    function itself, or the function only delegates (`return helper(...)`) to the one that contains it."""
+    f = fr.func
+    calls = [c for g, c in ctx.I.dispatch_sites() if g is f]
+    if len(calls) == 1:
+        return calls[0], fr
+    if not calls and depth < 3:
+        rets = ctx.I.return_exprs(f)
+        if len(rets) == 1 and isinstance(rets[0], ast.Call):
+            ts = [t for t in ctx.I.resolve_call(rets[0], fr) if t.kind == "repo" and t.frame is not None]
+            if len(ts) == 1:
+                return idiom_site(ctx, ts[0].frame, depth + 1)
+    raise AnalysisError(f"dispatch idiom not recognised in {f.fq}: {len(calls)} getattr(…, f'…') site(s)")
+
+
 def handler_cells(ctx: Ctx) -> dict:
     """{V: {cell: Callee | None}}; cell = ('cmd', name) | ('internal', value) | ('stream', value).
 
@@ -54,10 +70,9 @@ def handler_cells(ctx: Ctx) -> dict:
     I = ctx.I
     out: dict = {}
     disp = ctx.func(DISPATCH)
-    call = _idiom_call(ctx, disp)
     for V in ctx.versions:
         cells: dict = {}
-        fr = Frame(Callee(disp, None, ()), V)
+        call, fr = idiom_site(ctx, Frame(Callee(disp, None, ()), V))
         info = I.getattr_idiom_info(call, fr)
         if info is None:
             raise AnalysisError("incoming dispatch idiom not recognised")
@@ -106,9 +121,8 @@ def outgoing_cells(ctx: Ctx) -> dict:
     I = ctx.I
     out: dict = {}
     disp = ctx.func(DISPATCH_OUT)
-    call = _idiom_call(ctx, disp)
     for V in ctx.versions:
-        fr = Frame(Callee(disp, None, ()), V)
+        call, fr = idiom_site(ctx, Frame(Callee(disp, None, ()), V))
         vals = I.eval(call, fr)
         cells = {}
         cmd_cls = I.vclass(V, "Command")
